@@ -32,7 +32,12 @@ def histories(rng, tier):
         tot = n
         for _ in range(rng.randint(1, 3)):
             n2 = rng.randint(0, min(rng.choice([3, 3, 5]), 7 - tot))
-            acts.append((rng.choice(["tensorr", "tensorl", "mulassign"]), n2, rand_small_state(rng, n2)))
+            how = rng.choice(["tensorr", "tensorl", "mulassign"])
+            if rng.random() < 0.3:
+                # both factors threaded, with their own worker counts
+                acts.append((how + "t", n2, rand_small_state(rng, n2), rng.choice(regcheck.thread_counts())))
+            else:
+                acts.append((how, n2, rand_small_state(rng, n2)))
             tot += n2
             acts += [("dump",), ("probs",)]
         hs.append((0, acts))
@@ -68,10 +73,10 @@ def oracle(acts, recs):
             n = a[1]; state = np.zeros(1 << n, dtype=complex); state[0] = 1
         elif k == "raw":
             n = a[1]; state = np.array(a[2][:1 << n], dtype=complex)
-        elif k in ("tensorr", "mulassign"):
+        elif k in ("tensorr", "mulassign", "tensorrt", "mulassignt"):
             other = np.array(a[2][:1 << a[1]], dtype=complex)
             state = np.kron(other, state); n += a[1]       # left factor in the low-order bits
-        elif k == "tensorl":
+        elif k in ("tensorl", "tensorlt"):
             other = np.array(a[2][:1 << a[1]], dtype=complex)
             state = np.kron(state, other); n += a[1]
         elif k == "setnum":
